@@ -66,6 +66,52 @@ class SList(Model):
         it.ctx.oblige("safety/index-in-range", z3.And(k >= 0, k < to_num(self.length)))
         return self.element(k)
 
+    def py_binop(self, it, op, other, refl):
+        # concatenation of numeric sequences (list + list): the elements of both, in order
+        if isinstance(op, ast.Add) and isinstance(other, (SList, SMutList, list)):
+            def parts(v):
+                if isinstance(v, SList):
+                    return to_num(v.length), v.element
+                if isinstance(v, SMutList):
+                    arr = v.arr
+                    return to_num(v.length), (lambda k: z3.Select(arr, k))
+                vals = list(v)
+
+                def pick(k):
+                    # total selection (no range obligation: the caller guards the position)
+                    if z3.is_int_value(k) and 0 <= k.as_long() < len(vals):
+                        return vals[k.as_long()]
+                    if not vals:
+                        return z3.RealVal(0)
+                    nums = [to_num(x) for x in vals]
+                    if any(x is None for x in nums):
+                        raise Unsupported("concatenation with a non-numeric python list read at a symbolic position")
+                    if len({x.is_int() for x in nums}) > 1:
+                        nums = [to_real(x) for x in nums]
+                    acc = nums[-1]
+                    for j in range(len(nums) - 2, -1, -1):
+                        acc = z3.If(k == j, nums[j], acc)
+                    return acc
+                return z3.IntVal(len(vals)), pick
+            a, b = (other, self) if refl else (self, other)
+            (la, ea), (lb, eb) = parts(a), parts(b)
+
+            def elem(k):
+                k = to_num(k)
+                s = z3.simplify(k < la)
+                if z3.is_true(s):
+                    return ea(k)
+                if z3.is_false(s):
+                    return eb(z3.simplify(k - la))
+                x, y = to_num(ea(k)), to_num(eb(z3.simplify(k - la)))
+                if x is None or y is None:
+                    raise Unsupported("concatenation of non-numeric symbolic sequences read at a symbolic position")
+                if x.is_int() != y.is_int():
+                    x, y = to_real(x), to_real(y)
+                return z3.If(k < la, x, y)
+            return SList(z3.simplify(la + lb), elem, self.tags)
+        return NotImplemented
+
     def py_getattr(self, it, name):
         if name in ('size', 'shape', 'ravel', 'ndim'):
             # a python list / tuple has none of the ndarray attributes
